@@ -128,6 +128,92 @@ def replay(args, model):
                 inputs=dict(seed=0, n=n, p=p))
 
 
+def cox_global_task(T, sparse):
+    """Cox.get_global_lipschitz(_sparse): the REAL method on a 3 x 2 design with symbolic censoring indicators s_i >= 0 and times.
+    Contract:  result * (A^T A)[j][k] == S^2 * (sum_i s_i / n) * (X^T X)[j][k]   -- the constant is (sum_i s_i / n) ||X||_2^2, and
+    sum_i s_i / n bounds every entry of the diagonal curvature bound raw_hessian (obligation `raw_hessian[i]<=sum(s)/n` of
+    contracts/c06b.py, n = 2, every tie / censoring pattern), which dominates the Hessian (c06b: diagonal, and determinant in the thorough tier)."""
+    import z3
+    from pv import sym, symrun
+    from pv.sproof import check_contract, zpre
+    from .c06 import Env, _sum
+    symrun.install()
+    import skglm.datafits.single_task as mod
+    e = Env(N, P)
+    R, L = sym.SymReal, sym.lift
+    S = z3.Real('spectral_norm_of_A')
+    sv = [z3.Real(f's{i}') for i in range(N)]
+    tv = [z3.Real(f'tm{i}') for i in range(N)]
+    rec = {}
+
+    def stub_norm(A, ord=None, **kw):
+        rec['A'], rec['ord'] = np.array(A, dtype=object), ord
+        return R(S)
+
+    def stub_spectral(data, indptr, indices, n_samples, *a, **kw):
+        A = np.zeros((int(n_samples), len(indptr) - 1), dtype=object)
+        for j in range(len(indptr) - 1):
+            for idx in range(indptr[j], indptr[j + 1]):
+                A[indices[idx], j] = A[indices[idx], j] + data[idx]
+        rec['A'], rec['ord'] = A, 2
+        return R(S)
+    full = [[1] * P for _ in range(N)]
+
+    def run():
+        rec.clear()
+        D = mod.Cox()
+        y = np.array([[R(tv[i]), R(sv[i])] for i in range(N)], dtype=object)
+        saved = (mod.norm, mod.spectral_norm)
+        try:
+            mod.norm, mod.spectral_norm = stub_norm, stub_spectral
+            out = D.get_global_lipschitz_sparse(*e.csc(full), y) if sparse else D.get_global_lipschitz(e.symX(), y)
+        finally:
+            mod.norm, mod.spectral_norm = saved
+        return out, dict(rec)
+
+    def post(out, p):
+        res, r = out
+        A = r.get('A')
+        cs = [('spectral-norm-of-a-2-D-matrix-is-taken(ord=2)', [], z3.BoolVal(A is not None and A.ndim == 2 and r.get('ord') == 2))]
+        if A is None or A.ndim != 2 or A.shape not in ((N, P), (P, N)):
+            return cs + [('matrix-has-the-shape-of-X-or-X.T', [], z3.BoolVal(False))]
+        at = (lambda i, j: L(A[i, j])) if A.shape == (N, P) else (lambda i, j: L(A[j, i]))
+        for j in range(P):
+            for k in range(j, P):
+                G = _sum(at(i, j) * at(i, k) for i in range(N))
+                cs.append((f'result*(A^T.A)[{j}][{k}]==S^2*(sum_i s_i/n)*(X^T.X)[{j}][{k}]', [],
+                           L(res) * G == S * S * (_sum(sv) / N) * _sum(e.X[i][j] * e.X[i][k] for i in range(N))))
+        return cs
+    check_contract(T, f'Cox.get_global_lipschitz{"_sparse" if sparse else ""}', run, zpre([S >= 0] + [s_ >= 0 for s_ in sv]), post,
+                   strength='B', replay=dict(fn='contracts.c09g:replay_cox_global', args=dict(sparse=sparse)))
+
+
+add_task('C09', 'single_task:Cox.get_global_lipschitz[dense]', cox_global_task, strength='B', sparse=False)
+add_task(['C09', 'C10'], 'single_task:Cox.get_global_lipschitz[sparse]', cox_global_task, strength='B', sparse=True)
+
+
+def replay_cox_global(args, model):
+    from scipy import sparse as sp
+    from skglm.datafits import Cox
+    from skglm.utils.jit_compilation import compiled_clone
+    rng = np.random.RandomState(0)
+    n, p = 20, 4
+    X = np.asfortranarray(rng.randn(n, p))
+    y = np.c_[rng.rand(n) + 0.1, (rng.rand(n) < 0.6).astype(float)]
+    D = compiled_clone(Cox())
+    try:
+        if args['sparse']:
+            Xs = sp.csc_matrix(X)
+            got = float(D.get_global_lipschitz_sparse(Xs.data, Xs.indptr, Xs.indices, y))
+        else:
+            got = float(D.get_global_lipschitz(X, y))
+    except Exception as ex:      # noqa
+        return dict(confirmed=False, detail=f'could not call: {type(ex).__name__}: {str(ex)[:200]}', inputs={})
+    true = float(y[:, 1].sum() / n * np.linalg.norm(X, ord=2) ** 2)
+    return dict(confirmed=bool(abs(got - true) > 1e-4 * max(1., true)),
+                detail=f'returned {got:.6g}, (sum_i s_i / n) ||X||_2^2 = {true:.6g}', inputs=dict(seed=0, n=n, p=p))
+
+
 def group_lipschitz_task(T, which, sparse):
     """group-wise constants: QuadraticGroup.get_lipschitz(_sparse)[g] / LogisticGroup.initialize -> lipschitz[g] is
     factor * ||X_[:, group g]||_2^2: the matrix handed to `norm` / `spectral_norm` for group g must have the Gram matrix of the columns
